@@ -478,3 +478,65 @@ def h8(proj, rep):
             n -= 1
     rep.count('H8.phase_conversions', n)
     return n
+
+
+# ------------------------------------------------------------------------------------------------ H9
+RULE_H9 = ('H9: the ordering-phase correction of clifford_multiply sums, over pairs j < k of rows of Sx, the product (Z-half of column j of Sy) . (X-half of '
+           'column k of Sy): in every formulation of that term (the five-operand einsum, or `triu(A.T @ B, k=1)`) the Z-half `Sy[N0:]` carries the FIRST index '
+           'of the strict upper triangle and the X-half `Sy[:N0]` the second. With the halves exchanged the transposed pair matrix is triangularised and the '
+           'sign bits of the product are wrong.')
+
+
+def h9(proj, rep):
+    rep.rule('H9', RULE_H9)
+    fi = proj.func(f'{MOD}.clifford_multiply')
+    m = fi.module
+    rep.touch(m)
+    n = 0
+
+    def half(e):
+        """'Z' for Sy[N0:], 'X' for Sy[:N0], None otherwise"""
+        if isinstance(e, ast.Subscript) and isinstance(e.value, ast.Name) and e.value.id == 'Sy' and isinstance(e.slice, ast.Slice):
+            if e.slice.lower is not None and e.slice.upper is None and ast.unparse(e.slice.lower) == 'N0':
+                return 'Z'
+            if e.slice.lower is None and e.slice.upper is not None and ast.unparse(e.slice.upper) == 'N0':
+                return 'X'
+        return None
+    triu_names = {s.targets[0].id for s in ast.walk(fi.node) if isinstance(s, ast.Assign) and isinstance(s.targets[0], ast.Name) and isinstance(s.value, ast.Call)
+                  and ast.unparse(s.value.func).endswith('triu') and 'ones' in ast.unparse(s.value)}
+    for c in ast.walk(fi.node):
+        if not isinstance(c, ast.Call):
+            continue
+        f = ast.unparse(c.func)
+        if f.endswith('einsum') and len(c.args) >= 10:
+            ops = [(c.args[i], c.args[i + 1]) for i in range(0, len(c.args) - 1, 2)]
+            tri = [(o, l) for o, l in ops if isinstance(o, ast.Name) and o.id in triu_names and isinstance(l, ast.List) and len(l.elts) == 2]
+            hz = [(o, l) for o, l in ops if half(o) == 'Z' and isinstance(l, ast.List) and len(l.elts) == 2]
+            hx = [(o, l) for o, l in ops if half(o) == 'X' and isinstance(l, ast.List) and len(l.elts) == 2]
+            if len(tri) == 1 and len(hz) == 1 and len(hx) == 1:
+                n += 1
+                j, k = [ast.unparse(x) for x in tri[0][1].elts]
+                zj, xk = ast.unparse(hz[0][1].elts[1]), ast.unparse(hx[0][1].elts[1])
+                if (zj, xk) == (j, k) and ast.unparse(hz[0][1].elts[0]) == ast.unparse(hx[0][1].elts[0]):
+                    rep.ok('H9', fi.qual, f'einsum: Sy[N0:] on the first triangle index {j}, Sy[:N0] on the second {k}', m, c)
+                elif (zj, xk) == (k, j):
+                    rep.violation('H9', fi.qual, f'`{ast.unparse(c)[:90]}`: the Z-half Sy[N0:] carries the SECOND triangle index and the X-half the first: the transposed pair '
+                                  f'matrix is triangularised', m, c)
+                else:
+                    n -= 1
+                    rep.undecided('H9', fi.qual, f'einsum legs of the Sy halves not recognised: {zj},{xk} vs triangle {j},{k}', m, c)
+        if f.endswith('triu') and c.args and isinstance(c.args[0], ast.BinOp) and isinstance(c.args[0].op, ast.MatMult):
+            mm = c.args[0]
+            l, r = mm.left, mm.right
+            lt = l.value if isinstance(l, ast.Attribute) and l.attr == 'T' else None
+            if lt is not None and half(lt) and half(r):
+                n += 1
+                if (half(lt), half(r)) == ('Z', 'X'):
+                    rep.ok('H9', fi.qual, 'triu(Sy[N0:].T @ Sy[:N0]): Z-half on the first triangle index', m, c)
+                else:
+                    rep.violation('H9', fi.qual, f'`{ast.unparse(c)[:70]}`: the pair matrix is (X-half).T @ (Z-half), the transpose of the one the ordering correction needs '
+                                  f'(Sy[N0:].T @ Sy[:N0]): the strict upper triangle keeps the wrong pairs', m, c)
+    if n == 0:
+        rep.undecided('H9', fi.qual, 'ordering-phase term not found in a known formulation', m, fi.node, text='ordering phase term')
+    rep.count('H9.formulations', n)
+    return n
